@@ -185,6 +185,7 @@ def per_variable(v, dss, op, key):
         idx, kw = ops.py_form(form)
         if isinstance(idx, tuple): idx = {ds.dims[j]: ix for j, ix in enumerate(idx)}
         idx = {k: x for k, x in idx.items() if k in v.dims}
+        if not idx: return None          # the variable has none of the indexed dimensions: left unchanged (metadata included)
         mode = 'position' if spelling in ('ix', 'isel') else 'label'
         return v.take(idx, indexing=mode)
     if n == 'reduce': return getattr(v, op[1])(axis=dname(op[2])) if dname(op[2]) in v.dims else None
@@ -323,6 +324,11 @@ def oracle(c, res):
             if not labs_eq(ga['labels'], wa['labels']): return 'variable %r: axis %s labels differ from the per-variable operation' % (k, ga['name'])
         if len(g['flat']) != len(w['flat']) or not all(close(x, y) for x, y in zip(g['flat'], w['flat'])):
             return 'variable %r: values differ from the per-variable operation' % k
+        # metadata of a variable: untouched when the variable is left unchanged, and what the DimArray operation gives otherwise
+        if want == 'unchanged' and g['attrs'] != orig[k]['attrs']:
+            return 'variable %r lacks the affected dimension but lost / changed its metadata: %r -> %r' % (k, orig[k]['attrs'], g['attrs'])
+        if want != 'unchanged' and want['t'] == 'arr' and g['attrs'] != w['attrs']:
+            return 'variable %r: metadata %r, the per-variable operation gives %r' % (k, g['attrs'], w['attrs'])
     if n in ('take', 'take_axis', 'sort_axis', 'reindex', 'interp') and res[1]['attrs'] != c['inputs'][0]['attrs']:
         return 'dataset metadata not carried over by %s' % n
     return None
